@@ -6,15 +6,48 @@ pub mod io {
     #[verifier::external]
     impl ::std::fmt::Debug for Error { fn fmt(&self, f: &mut ::std::fmt::Formatter<'_>) -> ::std::fmt::Result { Ok(()) } }
     #[derive(Clone, Copy)]
-    pub enum ErrorKind { NotFound, PermissionDenied, AlreadyExists, InvalidData, InvalidInput, Other }
+    pub enum ErrorKind { NotFound, PermissionDenied, ConnectionRefused, ConnectionReset, HostUnreachable, NetworkUnreachable, ConnectionAborted, NotConnected, AddrInUse, AddrNotAvailable, NetworkDown, BrokenPipe, AlreadyExists, WouldBlock, NotADirectory, IsADirectory, DirectoryNotEmpty, ReadOnlyFilesystem, StaleNetworkFileHandle, InvalidInput, InvalidData, TimedOut, WriteZero, StorageFull, NotSeekable, QuotaExceeded, FileTooLarge, ResourceBusy, ExecutableFileBusy, Deadlock, CrossesDevices, TooManyLinks, InvalidFilename, ArgumentListTooLong, Interrupted, Unsupported, UnexpectedEof, OutOfMemory, Other }
     impl PartialEq for ErrorKind {
         fn eq(&self, other: &Self) -> (r: bool) ensures r == (*self == *other) {
             match (self, other) {
                 (ErrorKind::NotFound, ErrorKind::NotFound) => true,
                 (ErrorKind::PermissionDenied, ErrorKind::PermissionDenied) => true,
+                (ErrorKind::ConnectionRefused, ErrorKind::ConnectionRefused) => true,
+                (ErrorKind::ConnectionReset, ErrorKind::ConnectionReset) => true,
+                (ErrorKind::HostUnreachable, ErrorKind::HostUnreachable) => true,
+                (ErrorKind::NetworkUnreachable, ErrorKind::NetworkUnreachable) => true,
+                (ErrorKind::ConnectionAborted, ErrorKind::ConnectionAborted) => true,
+                (ErrorKind::NotConnected, ErrorKind::NotConnected) => true,
+                (ErrorKind::AddrInUse, ErrorKind::AddrInUse) => true,
+                (ErrorKind::AddrNotAvailable, ErrorKind::AddrNotAvailable) => true,
+                (ErrorKind::NetworkDown, ErrorKind::NetworkDown) => true,
+                (ErrorKind::BrokenPipe, ErrorKind::BrokenPipe) => true,
                 (ErrorKind::AlreadyExists, ErrorKind::AlreadyExists) => true,
-                (ErrorKind::InvalidData, ErrorKind::InvalidData) => true,
+                (ErrorKind::WouldBlock, ErrorKind::WouldBlock) => true,
+                (ErrorKind::NotADirectory, ErrorKind::NotADirectory) => true,
+                (ErrorKind::IsADirectory, ErrorKind::IsADirectory) => true,
+                (ErrorKind::DirectoryNotEmpty, ErrorKind::DirectoryNotEmpty) => true,
+                (ErrorKind::ReadOnlyFilesystem, ErrorKind::ReadOnlyFilesystem) => true,
+                (ErrorKind::StaleNetworkFileHandle, ErrorKind::StaleNetworkFileHandle) => true,
                 (ErrorKind::InvalidInput, ErrorKind::InvalidInput) => true,
+                (ErrorKind::InvalidData, ErrorKind::InvalidData) => true,
+                (ErrorKind::TimedOut, ErrorKind::TimedOut) => true,
+                (ErrorKind::WriteZero, ErrorKind::WriteZero) => true,
+                (ErrorKind::StorageFull, ErrorKind::StorageFull) => true,
+                (ErrorKind::NotSeekable, ErrorKind::NotSeekable) => true,
+                (ErrorKind::QuotaExceeded, ErrorKind::QuotaExceeded) => true,
+                (ErrorKind::FileTooLarge, ErrorKind::FileTooLarge) => true,
+                (ErrorKind::ResourceBusy, ErrorKind::ResourceBusy) => true,
+                (ErrorKind::ExecutableFileBusy, ErrorKind::ExecutableFileBusy) => true,
+                (ErrorKind::Deadlock, ErrorKind::Deadlock) => true,
+                (ErrorKind::CrossesDevices, ErrorKind::CrossesDevices) => true,
+                (ErrorKind::TooManyLinks, ErrorKind::TooManyLinks) => true,
+                (ErrorKind::InvalidFilename, ErrorKind::InvalidFilename) => true,
+                (ErrorKind::ArgumentListTooLong, ErrorKind::ArgumentListTooLong) => true,
+                (ErrorKind::Interrupted, ErrorKind::Interrupted) => true,
+                (ErrorKind::Unsupported, ErrorKind::Unsupported) => true,
+                (ErrorKind::UnexpectedEof, ErrorKind::UnexpectedEof) => true,
+                (ErrorKind::OutOfMemory, ErrorKind::OutOfMemory) => true,
                 (ErrorKind::Other, ErrorKind::Other) => true,
                 _ => false,
             }
@@ -305,7 +338,7 @@ pub mod fs {
     /// lstat(2) (does not follow a final symbolic link)
     #[verifier::external_body]
     pub fn symlink_metadata<A: PathArg>(p: A, Tracked(w): Tracked<&World>) -> (r: io::Result<Metadata>)
-        ensures
+        /*@PARTIAL*/ ensures
             r is Ok ==> (w.fs.links.contains_key(p.pathv()) || w.fs.files.contains_key(resolve(w.fs, p.pathv())) || w.fs.dirs.contains(resolve(w.fs, p.pathv()))),
     { unimplemented!() }
     #[verifier::external_body]
